@@ -154,7 +154,56 @@ pub struct Model {
 	pub stat_held: u64,
 	pub stat_held_displaced: u64,
 	pub stat_replaced: u64,
+	/// timestamp of the last rapid-gossip-sync snapshot applied completely
+	pub last_rgs: Option<u32>,
 }
+
+/// One channel of a rapid-gossip-sync snapshot (node ids in the order given, maybe unsorted).
+#[derive(Clone, Debug)]
+pub struct RgsAnnD {
+	pub scid: u64,
+	pub n1: Pk,
+	pub n2: Pk,
+	pub funding: Option<u64>,
+}
+
+/// One directional update of a snapshot: a full one starts from the snapshot's defaults, an
+/// incremental one from what the graph holds for that direction; `Some` fields override.
+#[derive(Clone, Debug)]
+pub struct RgsUpdD {
+	pub scid: u64,
+	pub dir: u8,
+	pub enabled: bool,
+	pub incremental: bool,
+	pub cltv: Option<u16>,
+	pub hmin: Option<u64>,
+	pub base: Option<u32>,
+	pub prop: Option<u32>,
+	pub hmax: Option<u64>,
+}
+
+#[derive(Clone, Debug)]
+pub struct RgsD {
+	pub chain_ok: bool,
+	pub latest_seen: u32,
+	/// the current time, if handed to the snapshot processing (age check + pruning)
+	pub time: Option<u64>,
+	pub anns: Vec<RgsAnnD>,
+	pub upds: Vec<RgsUpdD>,
+	pub defaults: (u16, u64, u32, u32, u64),
+}
+
+#[derive(Clone, Debug, Default)]
+pub struct RgsResult {
+	pub ok: bool,
+	pub added: Vec<RgsAnnD>,
+	pub attempted: Vec<CuDesc>,
+	pub applied: u64,
+	pub skipped_incremental: u64,
+	pub prune: PruneEffect,
+}
+
+pub const RGS_BACKDATE_SECS: u32 = 7 * 24 * 3600;
 
 #[derive(Clone, Copy, Debug, PartialEq, Eq)]
 pub struct CaResult {
@@ -566,6 +615,84 @@ impl Model {
 		self.tomb_nodes.retain(|_, x| t.saturating_sub(*x) < TOMBSTONE_SECS);
 		eff.tombs_forgotten = (before - self.tomb_chans.len() - self.tomb_nodes.len()) as u64;
 		eff
+	}
+
+	/// A rapid-gossip-sync snapshot from the trusted server: channels are taken without
+	/// signatures or chain lookup (known ones are left alone), updates are applied as unsigned
+	/// channel_updates dated one week before the snapshot's timestamp, then (if the current time
+	/// is given) the graph is pruned.
+	pub fn rgs(&mut self, d: &RgsD) -> RgsResult {
+		let mut res = RgsResult::default();
+		if !d.chain_ok {
+			return res;
+		}
+		if let Some(t) = d.time {
+			if (d.latest_seen as u64) < t.saturating_sub(STALE_SECS) {
+				return res;
+			}
+		}
+		let backdated = d.latest_seen.saturating_sub(RGS_BACKDATE_SECS);
+		for a in d.anns.iter() {
+			if a.n1 >= a.n2 {
+				// malformed snapshot: processing stops here
+				return res;
+			}
+			if self.chans.contains_key(&a.scid) {
+				continue;
+			}
+			self.chans.insert(
+				a.scid,
+				MChan {
+					v: VChan { n1: a.n1, n2: a.n2, cap: a.funding, dirs: [None, None] },
+					received: backdated as u64,
+				},
+			);
+			self.reset_chans.insert(a.scid);
+			self.attach_chan(a.scid, &a.n1, &a.n2);
+			res.added.push(a.clone());
+		}
+		for u in d.upds.iter() {
+			let (mut cltv, mut hmin, mut base, mut prop, mut hmax) = d.defaults;
+			if u.incremental {
+				match self.chans.get(&u.scid).and_then(|c| c.v.dirs[u.dir as usize].as_ref()) {
+					Some(cur) => {
+						cltv = cur.cltv;
+						hmin = cur.hmin;
+						base = cur.base;
+						prop = cur.prop;
+						hmax = cur.hmax;
+					},
+					None => {
+						res.skipped_incremental += 1;
+						continue;
+					},
+				}
+			}
+			let desc = CuDesc {
+				scid: u.scid,
+				dir: u.dir,
+				ts: backdated,
+				enabled: u.enabled,
+				cltv: u.cltv.unwrap_or(cltv),
+				hmin: u.hmin.unwrap_or(hmin),
+				hmax: u.hmax.unwrap_or(hmax),
+				base: u.base.unwrap_or(base),
+				prop: u.prop.unwrap_or(prop),
+				chain_ok: true,
+				signer: [0u8; 33],
+				tampered: false,
+			};
+			if self.chan_upd(&desc, false, false) {
+				res.applied += 1;
+			}
+			res.attempted.push(desc);
+		}
+		self.last_rgs = Some(d.latest_seen);
+		if let Some(t) = d.time {
+			res.prune = self.prune(t);
+		}
+		res.ok = true;
+		res
 	}
 
 	/// The graph was replaced by its deserialised copy: removal memory is not part of the
